@@ -26,6 +26,10 @@ pub struct Grant {
     pub release_size: usize,
 }
 
+/// `phase` value that selects the packed substrate: grants are placed back to back (no canaries, no page phase), like a
+/// region allocator would; consecutive chunks are then exactly adjacent in memory
+pub const PACKED_PHASE: usize = 4095;
+
 #[derive(Clone, Copy, Debug, Default)]
 pub struct SlabCfg {
     /// address of every grant is ≡ phase (mod 4096) (rounded up to the requested alignment)
@@ -78,8 +82,25 @@ impl Slab {
                 return Err(AllocError);
             }
         };
-        // placement: next page boundary (leaving a canary page fraction) + phase rounded to align
         let align = layout.align();
+        if self.cfg.phase == PACKED_PHASE {
+            let cur = self.base as usize + self.next.max(CANARY);
+            let a = (cur + align - 1) & !(align - 1);
+            let off = a - self.base as usize;
+            let end = off + granted;
+            if end + CANARY > SLAB_BYTES {
+                self.refused += 1;
+                return Err(AllocError);
+            }
+            self.next = end;
+            unsafe {
+                let p = self.base.add(off);
+                std::ptr::write_bytes(p, FRESH_BYTE, granted);
+                self.grants.push(Grant { seq: idx, addr: p as usize, req_size: layout.size(), align, granted, ident, released: false, release_size: 0 });
+                return Ok(NonNull::slice_from_raw_parts(NonNull::new_unchecked(p), granted));
+            }
+        }
+        // placement: next page boundary (leaving a canary page fraction) + phase rounded to align
         let big = align.max(PAGE);
         let phase = ((self.cfg.phase + align - 1) & !(align - 1)) % big;
         let cur = self.base as usize + self.next + CANARY;
@@ -147,10 +168,11 @@ impl Slab {
 
     /// Verifies canaries of all grants and poison of released grants.
     pub fn check_guards(&self) -> Result<(), String> {
+        let packed = self.cfg.phase == PACKED_PHASE;
         for g in &self.grants {
             unsafe {
                 let p = g.addr as *const u8;
-                for i in 0..CANARY {
+                for i in 0..if packed { 0 } else { CANARY } {
                     if *p.sub(i + 1) != CANARY_BYTE {
                         return Err(format!("byte {} before grant #{} was overwritten", i + 1, g.seq));
                     }
